@@ -22,20 +22,21 @@ RULE = ('exhaustive: all 24 neighbour orderings x {4 heavy neighbours, implicit 
         'distinct by (canonical string, spelling/order)')
 ASSUMPTIONS = ['CachedMethods compatibility shim', 'RDKit as independent reader of SMILES marks and wedge bonds (carbon '
                'tetrahedral centres and double bonds; RDKit has no allene / cumulene stereo, those are judged by own parity only)',
-               'ring dienes affected by the recorded writer finding are classified to it']
+               'ring dienes affected by the recorded writer finding are classified to it',
+               'isolated E/Z double bonds in rings of 8-12 atoms (64 E/Z pairs): both labels kept, E != Z, written marks read by RDKit as the source']
 CONFIG = {
     'quick': {'shards': 16, 'budget_s': 300, 'n_corpus': 2000, 'k_spell': 10,
               'floors': {'evaluations': 8000, 'distinct_nontrivial': 1200, 'perm.tetrahedral': 200, 'perm.axis': 100,
                          'table.tetrahedron-keys': 24, 'table.alkene-keys': 8, 'rdkit.smiles-compared': 3000,
                          'rdkit.wedge-compared': 300, 'isomers.sets': 40, 'edits.label-dropped': 30, 'single-label.compared': 1500,
                          'single-label.verdict-not-stereogenic': 300, 'single-label.spiro-pairs': 300, 'explicit-h-wedges.compared': 150, 'edits.dependent-labels-checked': 60,
-                         'gem.equal-substituents': 50, 'gem.unlike-substituents': 250, 'ring-attached.axes': 120, 'ring-attached.equal-groups-outside': 9}},
+                         'gem.equal-substituents': 50, 'gem.unlike-substituents': 250, 'ring-attached.axes': 120, 'ring-attached.equal-groups-outside': 9, 'ring-double-bond.pairs': 64, 'ring-double-bond.size-8': 8}},
     'thorough': {'shards': 16, 'budget_s': 1800, 'n_corpus': 4200, 'k_spell': 80,
                  'floors': {'evaluations': 100000, 'distinct_nontrivial': 8000, 'perm.tetrahedral': 200, 'perm.axis': 100,
                             'table.tetrahedron-keys': 24, 'table.alkene-keys': 8, 'rdkit.smiles-compared': 50000,
                             'rdkit.wedge-compared': 1000, 'isomers.sets': 60, 'edits.label-dropped': 30, 'single-label.compared': 8000,
                             'single-label.verdict-not-stereogenic': 1500, 'single-label.spiro-pairs': 300, 'explicit-h-wedges.compared': 600, 'edits.dependent-labels-checked': 60,
-                            'gem.equal-substituents': 50, 'gem.unlike-substituents': 250, 'ring-attached.axes': 120, 'ring-attached.equal-groups-outside': 9}},
+                            'gem.equal-substituents': 50, 'gem.unlike-substituents': 250, 'ring-attached.axes': 120, 'ring-attached.equal-groups-outside': 9, 'ring-double-bond.pairs': 64, 'ring-double-bond.size-8': 8}},
 }
 
 
@@ -746,6 +747,55 @@ def ring_attached_double_bonds(ctx, rng):
                 break
 
 
+def ring_double_bonds(ctx, rng):
+    """an isolated double bond inside a ring of 8 to 12 atoms (the library's own lower limit for ring E/Z is 8; smaller rings are not
+    judged): the E and the Z text give different molecules, each keeps exactly one bond label, and what is written back denotes the
+    arrangement RDKit derives from the source text. Verdict by construction (E and Z texts differ in one mark), RDKit as second judge."""
+    k = 0
+    for size in range(8, 13):
+        for pos in range(0, size - 4, 2):
+            for a, b in (('C', 'C'), ('O', 'C'), ('C', 'N(C)'), ('C(C)', 'C')):
+                k += 1
+                if not ctx.mine(k):
+                    continue
+                rest = size - 5 - pos
+                head = 'C1' + 'C' * pos + a
+                tail = b + 'C' * rest + '1'
+                e_text = head + '/C=C/' + tail
+                z_text = head + '/C=C\\' + tail
+                try:
+                    e, z = smiles(e_text), smiles(z_text)
+                except Exception as ex:
+                    ctx.violation('labelled-text-not-readable/%s' % type(ex).__name__, '%s: %r' % (e_text, ex), {'smiles': e_text})
+                    continue
+                ctx.evaluations += 1
+                ctx.count('ring-double-bond.pairs')
+                ctx.count('ring-double-bond.size-%d' % size)
+                ctx.nontrivial.add('ringdb:' + e_text)
+                for text, m in ((e_text, e), (z_text, z)):
+                    n_b = sum(bd.stereo is not None for *_, bd in m.bonds())
+                    if n_b != 1:
+                        ctx.violation('label-dropped-on-stereogenic-centre/double-bond-in-ring-of-%d' % size,
+                                      '%s: %d bond labels kept, RDKit keeps 1 (%s)' % (text, n_b, rd_canon(text)), {'smiles': text})
+                        break
+                    want, got = rd_canon(text), rd_canon(str(m))
+                    if want is not None and got is not None and want != got:
+                        ctx.violation('written-marks-denote-other-arrangement/double-bond-in-ring', '%s written %s: RDKit reads %s, source is %s'
+                                      % (text, m, got, want), {'smiles': text})
+                        break
+                    for _ in range(2):
+                        try:
+                            new, mp, bad = T.redescribe(m, rng)
+                        except Exception:
+                            break
+                        if not bad and new != m:
+                            ctx.violation('renumbered-ring-double-bond-differs', '%s renumbered %s: %s != %s' % (text, sorted(mp.items())[:8], new, m), {'smiles': text})
+                            break
+                else:
+                    if e == z or str(e) == str(z) or hash(e) == hash(z) and str(e) == str(z):
+                        ctx.violation('stereoisomers-compare-equal/double-bond-in-ring-of-%d' % size, '%s and %s are == (%s)' % (e_text, z_text, e), {'smiles': e_text})
+
+
 def worker(ctx):
     cfg = CONFIG[ctx.tier]
     rng = ctx.rng
@@ -756,6 +806,7 @@ def worker(ctx):
     label_dropping(ctx)
     gem_substituted_rings(ctx)
     ring_attached_double_bonds(ctx, rng)
+    ring_double_bonds(ctx, rng)
     c = T.corpus()
     ids = list(range(len(c)))
     _random.Random(ctx.seed).shuffle(ids)
